@@ -57,7 +57,7 @@ def generate(seed, tier, cfg):
     asc = gen.gen_score(st.workload, profile=("kernmei" if fmt == "kern" else ("mei2" if cfg == "mei-in" else "mei")) if rich else "simple", size=gen.pick_size(tier, st.knobs))
     if cfg == "mei-in" and k.random() < 0.06:
         asc = tiny_compound(k)
-    if cfg in ("kern-in", "mei-in") and k.random() < 0.05:
+    if k.random() < 0.05:
         asc = tiny_breve(k)
     mid = False
     if cfg.endswith("-rt") and rich and k.random() < 0.5:
@@ -670,6 +670,28 @@ def _run_rt(res, fs, asc, kn, fmt, path, faults, shape, score):
             res.violation("D1-retry", "save", "fault-free retry after %s raised %s: %s" % (outcome, type(e).__name__, e), site=fmt)
             return
     fs.faults = []
+    # the written text uses the vocabulary of its format: what another reader needs to give every element a length
+    import re as _re
+
+    text_ = fs.get(path).decode("utf-8", "replace")
+    if fmt == "mei":
+        odd = sorted(set(v for v in _re.findall(r'\sdur="([^"]*)"', text_) if v not in ("long", "breve", "1", "2", "4", "8", "16", "32", "64", "128", "256", "512", "1024", "2048")))
+        if odd:
+            res.violation("X3-vocabulary", "save", "save_mei wrote dur=%s, which is not a duration value of MEI" % odd, site="mei:dur")
+            return
+    else:
+        odd = []
+        for line in text_.splitlines():
+            if line[:1] in ("*", "!", "=") or not line.strip():
+                continue
+            for tok in _re.split(r"[\t ]", line):
+                if tok in (".", "") or "q" in tok.lower():
+                    continue
+                if not _re.search(r"[0-9]", tok):
+                    odd.append(tok)
+        if odd:
+            res.violation("X3-vocabulary", "save", "save_kern wrote note tokens without a duration: %s" % odd[:3], site="kern:recip")
+            return
     try:
         loaded = with_timeout(30, load_any, fs, path, kn["route"], fmt, res)
     except Timeout:
